@@ -1,7 +1,36 @@
 import Model.Record
+import Model.Compose
 /-! Line protocol: stateless operations on the pure model functions. -/
 namespace Driver
 open Model
+
+def denyStr : Option Deny → String
+  | none => "ok"
+  | some _ => "deny"
+
+def optHex (s : String) : Option (Option Bytes) :=
+  if s == "nil" then some none else (ofHex s).map some
+
+def showOptHex : Option Bytes → String
+  | none => "nil"
+  | some b => hexOrDash b
+
+def showPacket : Packet → String
+  | .connect clean ka cid will user pass =>
+    let w := match will with
+      | none => "nowill"
+      | some w => s!"will {hexOrDash w.topic} {hexOrDash w.message} {w.qos} {w.retain}"
+    s!"connect clean={clean} keepalive={ka} cid={hexOrDash cid} {w} user={showOptHex user} pass={showOptHex pass}"
+  | .connack sp code => s!"connack sp={sp} code={code}"
+  | .publish dup qos retain topic id payload =>
+    s!"publish dup={dup} qos={qos} retain={retain} topic={hexOrDash topic} id={id.getD 0} payload={hexOrDash payload}"
+  | .puback id => s!"puback {id}" | .pubrec id => s!"pubrec {id}"
+  | .pubrel id => s!"pubrel {id}" | .pubcomp id => s!"pubcomp {id}"
+  | .subscribe id fs => s!"subscribe {id} " ++ " ".intercalate (fs.map fun (f, q) => s!"{hexOrDash f}:{q}")
+  | .suback id codes => s!"suback {id} " ++ " ".intercalate (codes.map toString)
+  | .unsubscribe id fs => s!"unsubscribe {id} " ++ " ".intercalate (fs.map hexOrDash)
+  | .unsuback id => s!"unsuback {id}"
+  | .pingreq => "pingreq" | .pingresp => "pingresp" | .disconnect => "disconnect"
 
 def pureStep (f : List String) : String :=
   match f with
@@ -16,6 +45,54 @@ def pureStep (f : List String) : String :=
       | .ok (p, n) => s!"dec ok {hexOrDash p} {n}"
       | .error _ => "dec err"
     | none => "bad-op dec"
+  | ["strcheck", s] =>
+    match ofHex s with
+    | some b => "strcheck " ++ denyStr (stringCheck b)
+    | none => "bad-op strcheck"
+  | ["topiccheck", s] =>
+    match ofHex s with
+    | some b => "topiccheck " ++ denyStr (topicCheck b)
+    | none => "bad-op topiccheck"
+  | ["pubhead", head, pid, topic, n] =>
+    match head.toNat?, pid.toNat?, ofHex topic, n.toNat? with
+    | some h, some p, some t, some n =>
+      match publishHead (UInt8.ofNat h) t p n with
+      | .ok hd => s!"pubhead pkt {hexOrDash hd} {n} true"
+      | .error _ => "pubhead deny"
+    | _, _, _, _ => "bad-op pubhead"
+  | ["connreq", clean, ka, user, pass, wt, wm, ret, alo, eo, cid] =>
+    match ka.toNat?, ofHex user, optHex pass, ofHex wt, optHex wm, ofHex cid with
+    | some ka, some user, some pass, some wt, some wm, some cid =>
+      let c : Cfg := { userName := user, password := pass, keepAlive := ka, cleanSession := clean == "1",
+                       will := { topic := wt, message := wm, retain := ret == "1", atLeastOnce := alo == "1", exactlyOnce := eo == "1" } }
+      match c.valid with
+      | some _ => "connreq deny"
+      | none => "connreq pkt " ++ hexOrDash (c.connreq cid)
+    | _, _, _, _, _, _ => "bad-op connreq"
+  | op :: _ => "bad-op " ++ op
+  | [] => "bad-op"
+
+/-- The oracle port exists only on the model side: the reference decoder
+applied to bytes the implementation produced. -/
+def oracleStep (f : List String) : String :=
+  match f with
+  | ["decode", h] =>
+    match ofHex h with
+    | some b =>
+      match decodePacket b with
+      | some (p, rest) => s!"decoded rest={rest.length} " ++ showPacket p
+      | none => "undecodable"
+    | none => "bad-op decode"
+  | ["wire", h] =>
+    match ofHex h with
+    | some b =>
+      let w := parseWire b
+      let fr := w.frames.map fun (hd, body) =>
+        match parseBody hd body with
+        | some p => showPacket p
+        | none => "BAD(" ++ toHex (hd :: body) ++ ")"
+      s!"wire n={w.frames.length} partial={hexOrDash w.partialTail} malformed={w.malformedAt.isSome} | " ++ " | ".intercalate fr
+    | none => "bad-op wire"
   | op :: _ => "bad-op " ++ op
   | [] => "bad-op"
 
